@@ -47,7 +47,11 @@ def geo_for(k):
     """Explicit geometry written for the placeholder at document position k (distinct per position, distinct
     from every number in the template master)."""
     n = k + 1
-    return (1000000 + 1111 * n, 2000000 + 2222 * n, 3000000 + 3333 * n, 400000 + 4444 * n)
+    # the boundary value 0 is part of the alphabet: an explicit offset of 0 (a placeholder pinned to the slide
+    # edge) must not be mistaken for "no explicit value"; even positions have x = 0, odd positions y = 0
+    x = 0 if k % 2 == 0 else 1000000 + 1111 * n
+    y = 0 if k % 2 == 1 else 2000000 + 2222 * n
+    return (x, y, 3000000 + 3333 * n, 400000 + 4444 * n)
 
 
 def sp_xml(k, spec):
